@@ -1292,7 +1292,7 @@ class Context:
         """
         self._globals[name] = self._to_js(value)
 
-    def _to_python(self, value: JSValue) -> Any:
+    def _to_python(self, value: JSValue, _memo: Optional[Dict[int, Any]] = None) -> Any:
         """Convert a JavaScript value to Python."""
         if value is UNDEFINED:
             return None
@@ -1304,10 +1304,22 @@ class Context:
             return value
         if isinstance(value, str):
             return value
-        if isinstance(value, JSArray):
-            return [self._to_python(elem) for elem in value._elements]
         if isinstance(value, JSObject):
-            return {k: self._to_python(v) for k, v in value._properties.items()}
+            # Shared and cyclic structures keep their shape
+            if _memo is None:
+                _memo = {}
+            if id(value) in _memo:
+                return _memo[id(value)]
+            if isinstance(value, JSArray):
+                result: Any = []
+                _memo[id(value)] = result
+                result.extend(self._to_python(elem, _memo) for elem in value._elements)
+            else:
+                result = {}
+                _memo[id(value)] = result
+                for k, v in value._properties.items():
+                    result[k] = self._to_python(v, _memo)
+            return result
         return value
 
     def _to_js(self, value: Any) -> JSValue:
